@@ -160,3 +160,36 @@ Definition effects (act : action) (walk : list text) (regular : text -> bool) (j
                (filter (ext_ok ext) walk)
   | _ => []
   end.
+
+(* ---- --id and --bmc-id: directory order, first match wins ---- *)
+Definition not_found : stdout_t := OutText [L "PEL not found"].
+
+(* parsePelFromID: the first name containing the id is parsed and printed (nothing is printed if it does not decode) *)
+Definition mode_id (d : decoders) (hexm : bool) (id : text) (content : text -> bytes) (walk : list text) : option stdout_t :=
+  match process_id id with
+  | None => None                                    (* sys.exit("Invalid length of ID is provided!") *)
+  | Some pid =>
+      Some match first_containing pid walk with
+           | None => not_found
+           | Some n => match d_full d (content n) with
+                       | Got (_, j) => if hexm then OutHex [content n] else OutAll [j]
+                       | _ => OutAll []
+                       end
+           end
+  end.
+
+(* parsePelFromBmcID: the first file whose Private Header carries the id and whose full decode does not raise *)
+Definition bmc_match (d : decoders) (obmc : bytes -> option N) (id : text) (content : text -> bytes) (n : text) : bool :=
+  match obmc (content n) with
+  | Some v => text_eqb (dec v) id && negb (match d_full d (content n) with Exc => true | _ => false end)
+  | None => false
+  end.
+Definition mode_bmcid (d : decoders) (obmc : bytes -> option N) (hexm : bool) (id : text) (content : text -> bytes) (walk : list text)
+  : stdout_t :=
+  match List.find (bmc_match d obmc id content) walk with
+  | None => not_found
+  | Some n => match d_full d (content n) with
+              | Got (_, j) => if hexm then OutHex [content n] else OutAll [j]
+              | _ => OutAll []
+              end
+  end.
